@@ -462,3 +462,27 @@ def definition_items(quick=True):
         for b in reps:
             progs.append([a, b])
     return progs
+
+
+def wrap_string_pairs(quick=True):
+    """Two-item programs: a function / method whose signature line is over the wrap limit (so the formatter rewrites the file and
+    every later line number shifts) before, and after, an item that holds a string literal in a let, a call argument and a
+    function body. The string-content variants (multi-line, blank lines, ...) are derived from these by the callers."""
+    if quick:
+        sigs = [sig_fun("Fun", 1, 101), sig_fun("Fun", 3, 101, [X], "Doc line.", ("T",), gen.T_INT, True),
+                sig_fun("Method", 2, 102), sig_fun("Method", 1, 101, [], "Two\nlines", (), gen.T_FUN, True)]
+    else:
+        sigs = []
+        for L in (101, 104):
+            for n in (1, 2, 3, 4, 5):
+                sigs += [sig_fun("Fun", n, L), sig_fun("Fun", n, L, [X], "Doc line.", ("T",), gen.T_INT, True),
+                         sig_fun("Method", n, L), sig_fun("Method", n, L, [], "Two\nlines", (), gen.T_FUN, True)]
+    holders = [("Expr", ("Let", ("Sym", "v"), None, S_AB)), ("Expr", ("Call", X, [S_AB, X])), ("Fun", "g", False, None, [], [], None, [S_AB, X])]
+    progs = []
+    for sig in sigs:
+        if sig is None:
+            continue
+        for h in holders:
+            progs.append([sig, h])
+            progs.append([h, sig])
+    return progs
